@@ -1,4 +1,5 @@
 import HttpcoreModel.Props.C02
+import HttpcoreModel.Props.C02Chunked
 import HttpcoreModel.Props.C05
 import HttpcoreModel.Props.C12
 /-!
@@ -46,6 +47,46 @@ theorem h1_no_desync (ri1 ri2 : ReqInfo) (raw1 body1 raw2 body2 pre2 : Bytes) (h
   have hflat : (pre2 :: segsB).flatten = raw2 ++ (body2 ++ []) := by simpa using hB
   obtain ⟨f1, _, f3⟩ := h1_exchange_open ri2 raw2 body2 [] h2 hg2 (pre2 :: segsB) hflat
   exact ⟨f1, f3⟩
+
+
+/-! ## any mix of framings -/
+
+/-- "this wire image is read as (h, body)": for every continuation and every segmentation the reader delivers exactly
+`h` and `body`, complete, and leaves exactly the continuation unread -/
+def Delivers (ri : ReqInfo) (wire : Bytes) (h : Head) (body : Bytes) : Prop :=
+  ∀ (rest : Bytes) (segs : List Bytes), segs.flatten = wire ++ rest →
+    (readOpen ri segs).1 = { head := some h, bodyRev := body.reverse, outcome := .complete } ∧
+    (readOpen ri segs).2.2 = rest
+
+theorem delivers_content_length (ri : ReqInfo) (raw body : Bytes) (h : Head)
+    (hg : HeadGives ri raw h (.cl body.length)) : Delivers ri (raw ++ body) h body := by
+  intro rest segs hs
+  obtain ⟨e1, _, e3⟩ := h1_exchange_open ri raw body rest h hg segs (by simpa using hs)
+  exact ⟨e1, e3⟩
+
+theorem delivers_chunked (ri : ReqInfo) (raw : Bytes) (chunks : List Bytes) (h : Head)
+    (hg : HeadGives ri raw h .chunkSize) (hsz : ∀ c ∈ chunks, (H1W.hexLower c.length).length ≤ 20) :
+    Delivers ri (raw ++ H1W.writeChunked chunks) h chunks.flatten := by
+  intro rest segs hs
+  obtain ⟨e1, _, e3⟩ := h1_body_chunked ri raw rest chunks h hg hsz segs (by simpa using hs)
+  exact ⟨e1, e3⟩
+
+/-- **C01.no_desync** — two exchanges in a row on one kept-alive connection, each response framed by Content-Length or
+chunked encoding in any combination (`Delivers`, established by the two lemmas above): whatever prefix `pre2` of the second
+response the first exchange's reads already pulled in, and however the bytes are cut into reads, the first caller gets
+exactly (h1, body1), the reader keeps exactly `pre2`, and the second caller - starting from that leftover - gets exactly
+(h2, body2) with nothing left over. -/
+theorem no_desync (ri1 ri2 : ReqInfo) (w1 w2 body1 body2 pre2 : Bytes) (h1 h2 : Head)
+    (d1 : Delivers ri1 w1 h1 body1) (d2 : Delivers ri2 w2 h2 body2) (segsA segsB : List Bytes)
+    (hA : segsA.flatten = w1 ++ pre2) (hB : pre2 ++ segsB.flatten = w2) :
+    (readOpen ri1 segsA).1 = { head := some h1, bodyRev := body1.reverse, outcome := .complete } ∧
+    (readOpen ri1 segsA).2.2 = pre2 ∧
+    (readOpen ri2 ((readOpen ri1 segsA).2.2 :: segsB)).1 = { head := some h2, bodyRev := body2.reverse, outcome := .complete } ∧
+    (readOpen ri2 ((readOpen ri1 segsA).2.2 :: segsB)).2.2 = [] := by
+  obtain ⟨e1, e2⟩ := d1 pre2 segsA hA
+  refine ⟨e1, e2, ?_⟩
+  rw [e2]
+  exact d2 [] (pre2 :: segsB) (by simpa using hB)
 
 /-- the connection goes back to IDLE only if both sides are DONE, is available only when IDLE, and becomes ACTIVE only from
 NEW or IDLE under the state lock (all three regenerated from the source) -/
